@@ -322,6 +322,14 @@ Plan generate(uint64_t seed, uint64_t run, bool thorough) {
     p.set("maxiter", (p.get("nt") > 8 || p.get("ncycle") > 1) ? 25 : 100, 1);
     p.set("nullspace", ((comp == C_HIER && r.chance(0.4)) || comp == C_TENTATIVE) ? r.range(1, 4) : 0, 0);
     p.set("cross_switch", r.chance(0.05) ? 1 : 0, 0);      // occasionally compare across the 16/17 SpGEMM switch
+    // level-scheduled sweeps on enumerated small patterns: quick tier draws a pattern, thorough tier walks through all of them
+    // (3x3: 64, 4x4: 4096, 5x5: 2^20 patterns) by run index
+    if ((comp == C_GS || comp == C_ILU) && r.chance(0.35)) {
+        long N = 3 + (long)r.below(3); uint64_t npat = 1ULL << (N * (N - 1));
+        uint64_t bits = thorough ? (uint64_t)(run / 7) % npat : r.next() % npat;
+        p.set("enum_n", N, 3); p.set("enum_bits", (long)bits, 0); p.set("rect", 0, 0); p.set("n", N, 1);
+        static const long nte[] = { 4, 4, 5, 8 }; p.set("nt", nte[r.below(4)], 4);
+    }
     draw_schedule(r, p.sched, (int)p.get("nt"));
     draw_vary_params(r, p, 0.4);
     p.sched.max_decisions = 2000000000ULL;      // long non-converging solves at 32 threads are legitimate; the wall-clock watchdog bounds them
@@ -346,6 +354,13 @@ static World make_world(const Plan &p) {
         else w.B = gen::make_rect(n, m, ms + 1, (int)p.get("density"), false, p.get("sort") == 0);
         w.fam = -1;
     } else {
+        if (p.get("enum_n", 0) > 0) {
+            // one of ALL sparsity patterns of an enum_n x enum_n matrix (diagonal present, off-diagonal entry (i,j) iff bit i*(N-1)+j' of
+            // enum_bits): the small structurally non-symmetric patterns are where level schedules go wrong
+            long N = p.get("enum_n"); uint64_t bits = (uint64_t)p.get("enum_bits"); gen::Builder bd(N, N); int q = 0;
+            for (long i = 0; i < N; ++i) for (long j = 0; j < N; ++j) { if (i == j) { bd.set(i, i, 4.0 + (double)(i % 3)); continue; } if ((bits >> q) & 1) bd.set(i, j, -1.0 / (double)(1 + ((i * 7 + j * 3) % 4))); ++q; }
+            w.A = bd.finish(); w.fam = gen::F_NONSYM_PATTERN;
+        } else
         w.A = gen::make_matrix(w.fam, n, ms, (int)p.get("contrast"), (int)p.get("aniso"));
         w.B = gen::make_matrix(gen::F_GRAPH, w.A.n, ms + 1, 0, 1);
     }
@@ -520,6 +535,7 @@ Result execute(const Plan &p) {
 #endif
     if (nt > 16 && (w.comp == C_PRODUCT || w.comp == C_HIER || w.comp == C_SOLVE)) res.counts["spgemm_rmerge_path"]++;
     res.counts[std::string("comp_") + comp_name[w.comp]]++;
+    if (p.get("enum_n", 0) > 0) res.counts[fmt("enumerated_pattern_%ldx%ld", p.get("enum_n"), p.get("enum_n"))]++;
     res.nontrivial = nt >= 2 && !s1.deviations.empty() && w.A.n >= 2;
     uint64_t key = gen::digest(w.A); key = sim::hash_combine(key, w.comp); key = sim::hash_combine(key, nt);
     for (size_t i = 0; i < s1.deviations.size(); ++i) key = sim::hash_combine(key, s1.deviations[i].first * 131 + s1.deviations[i].second);
